@@ -7,6 +7,19 @@ ROOT = os.path.dirname(os.path.dirname(os.path.abspath(__file__)))
 
 # property -> (technique, level text, level note, design ref)
 CHECKS = {
+    "C01": (
+        "property-based testing (Hypothesis): writer <-> reader differential (own encoders for every format and dialect vs the library's readers)",
+        "Exploration: generated meshes (mixed 3..8-gons, global/partial, pole and antimeridian nodes) are written by independent encoders into "
+        "UGRID, MPAS primal/dual, SCRIP, Exodus, ESMF, GEOS-CS, ICON, GeoJSON/shapefile (polygons and multipolygons), face-vertex arrays and "
+        "topology arrays under a drawn dialect (start_index absent/0/1, fill none/-1/-999/999999/int64-min/NaN, int32/int64/float64, renamed "
+        "variables and dimensions, longitude convention, extra padding columns, Exodus block layout and coordinate layout, ESMF start_index and "
+        "pad value, MPAS padding style and radius), in memory or through a file on disk, and opened with the public readers. Checked: faces in "
+        "order with cyclically equal corner positions, the standard form of the result, and that supplied centres, edge/face connectivity "
+        "(through the source's own edge numbering) and areas are carried over with the same meaning.",
+        "Trusted: vlib/writers.py emits well-formed sources only (dialects a specification leaves undefined are not generated); geopandas as the "
+        "decoder of GeoJSON/shapefile rings; position equality 1e-7 rad / pole cap.",
+        "DESIGN.md section 6, C01",
+    ),
     "C02": (
         "property-based testing (Hypothesis) + exhaustive small-scope enumeration vs. set-based reference model",
         "Exploration, with an exhaustively enumerated small scope: every face-node table of up to 2 faces of sizes 3-5 on <=6 nodes "
